@@ -90,46 +90,53 @@ OutlineFrom(cs, k, nskipped, npassed) ==     \* ScenarioOutline.compute_status
    ELSE IF cs[k] = "skipped" THEN OutlineFrom(cs, k + 1, nskipped + 1, npassed)
    ELSE OutlineFrom(cs, k + 1, nskipped, npassed + 1)
 
-Model(sh, ds) ==
-   LET T    == Table(sh)
+\* the part of the model that depends on the shape only (built once per shape): element table and, per element, the
+\* ordinal of the scenario it is (0 = no scenario)
+Skeleton(shape) ==
+   LET T    == Table(shape)
        N    == Len(T)
        ids  == [i \in 1..N |-> i]
-       kids == [el \in 1..N |-> SelectSeq(ids, LAMBDA e : T[e].parent = el)]
-       scs  == SelectSeq(ids, LAMBDA e : T[e].kind = "scenario")
-       nth(el) == CHOOSE j \in DOMAIN scs : scs[j] = el
-       IsSc(el) == T[el].kind = "scenario"
+   IN [prog |-> [el \in 1..N |-> [kind |-> T[el].kind, parent |-> T[el].parent,
+                                  children |-> SelectSeq(ids, LAMBDA e : T[e].parent = el)]],
+       nth  |-> [el \in 1..N |-> IF T[el].kind = "scenario" THEN Cardinality({e \in 1..el : T[e].kind = "scenario"}) ELSE 0]]
+Model(skel, descs) ==
+   LET N == Len(skel.prog)
+       kids(el) == skel.prog[el].children
+       IsSc(el) == skel.nth[el] # 0
+       d(el) == descs[skel.nth[el]]
        RECURSIVE St(_)
-       St(el) == CASE T[el].kind = "scenario" -> ds[nth(el)].st
-                   [] T[el].kind = "outline"  -> OutlineFrom([j \in DOMAIN kids[el] |-> St(kids[el][j])], 1, 0, 0)
-                   [] OTHER -> ContFrom([j \in DOMAIN kids[el] |-> St(kids[el][j])], 1, TRUE, 0)
-   IN [prog |-> [el \in 1..N |-> [kind |-> T[el].kind, parent |-> T[el].parent, children |-> kids[el]]],
+       St(el) == CASE IsSc(el) -> d(el).st
+                   [] skel.prog[el].kind = "outline" -> OutlineFrom([j \in DOMAIN kids(el) |-> St(kids(el)[j])], 1, 0, 0)
+                   [] OTHER -> ContFrom([j \in DOMAIN kids(el) |-> St(kids(el)[j])], 1, TRUE, 0)
+   IN [prog |-> skel.prog,
        status |-> [el \in 1..N |-> St(el)],
-       steps |-> [el \in 1..N |-> IF IsSc(el) THEN ds[nth(el)].steps ELSE <<>>],
-       hookmsg |-> [el \in 1..N |-> IsSc(el) /\ ds[nth(el)].hookmsg],
-       hookraised |-> [el \in 1..N |-> IsSc(el) /\ ds[nth(el)].hookraised],
-       cleanup |-> [el \in 1..N |-> IsSc(el) /\ ds[nth(el)].cleanup]]
+       steps |-> [el \in 1..N |-> IF IsSc(el) THEN d(el).steps ELSE <<>>],
+       hookmsg |-> [el \in 1..N |-> IsSc(el) /\ d(el).hookmsg],
+       hookraised |-> [el \in 1..N |-> IsSc(el) /\ d(el).hookraised],
+       cleanup |-> [el \in 1..N |-> IsSc(el) /\ d(el).cleanup]]
 
 \* ---------------------------------------------------------------- state space
-\* m = the model of the state and out = what the reporter (as it is / repaired) makes of it with show_skipped on / off,
-\* both built once when the state is created (the invariants only read them)
-VARIABLES ph, sh, ds, m, out
-vars == <<ph, sh, ds, m, out>>
+\* sk = the skeleton of the shape, m = the model of the state and out = what the reporter (as it is / repaired) makes of
+\* it with show_skipped on / off, all built once when the state is created (the invariants only read them)
+VARIABLES ph, sh, sk, ds, m, out
+vars == <<ph, sh, sk, ds, m, out>>
 F == 1                                          \* the feature is element 1
-Init == ph = "start" /\ sh = <<>> /\ ds = <<>> /\ m = <<>> /\ out = <<>>
-Next == \/ ph = "start" /\ ph' = "shape" /\ sh' \in Shapes /\ UNCHANGED <<ds, m, out>>
-        \/ ph = "shape" /\ ph' = "case" /\ sh' = sh /\ ds' \in [1..Weight(sh) -> DescsFor(Weight(sh))] /\ m' = Model(sh, ds')
+Init == ph = "start" /\ sh = <<>> /\ sk = <<>> /\ ds = <<>> /\ m = <<>> /\ out = <<>>
+Next == \/ ph = "start" /\ ph' = "shape" /\ sh' \in Shapes /\ sk' = Skeleton(sh') /\ UNCHANGED <<ds, m, out>>
+        \/ ph = "shape" /\ ph' = "case" /\ UNCHANGED <<sh, sk>> /\ ds' \in [1..Weight(sh) -> DescsFor(Weight(sh))] /\ m' = Model(sk, ds')
            /\ out' = [show \in BOOLEAN |-> [code |-> FeatureReport(m', show, F, FALSE), repaired |-> FeatureReport(m', show, F, TRUE)]]
 Spec == Init /\ [][Next]_vars
 
 Dry == \E k \in DOMAIN ds : ds[k].dry
 Cfg(show) == [show |-> show, dry |-> Dry]
-Code(show)     == out[show].code
-Repaired(show) == out[show].repaired
+Code(show)     == out[show].code                  \* the reporter as found
+Repaired(show) == out[show].repaired              \* with the repaired _make_problem_description_for
+Current(show)  == IF RepairedCode THEN Repaired(show) ELSE Code(show)
 ClausesOf(show, obs) == Clauses(m, Cfg(show), F, obs)
 KFClause == "C16.no_crash/cleanup_error_no_step"
 
 \* (S) composed with (P): the reporter's output satisfies every clause -- except the named defect family
-ClausesHold == ph = "case" => \A show \in BOOLEAN : \A v \in ClausesOf(show, Code(show)) : v[1] = KFClause
+ClausesHold == ph = "case" => \A show \in BOOLEAN : \A v \in ClausesOf(show, Current(show)) : v[1] = KFClause
 \* the clauses can be met: with the repaired _make_problem_description_for nothing at all fires
 RepairedHolds == ph = "case" => \A show \in BOOLEAN : ClausesOf(show, Repaired(show)) = {}
 \* the exception is exactly as wide as the defect: the reporter raises iff some listed scenario of the feature is
@@ -156,7 +163,7 @@ WalkIsDocOrder == ph = "case" => Walk(m, F, 1) = DocScenarios(m, F)
 RECURSIVE Hash(_,_)
 Hash(q, k) == IF k > Len(q) THEN 0 ELSE q[k].ix * (7 * k * k + 3) + Hash(q, k + 1)
 EmitThis == Weight(sh) <= EmitAllUpTo \/ (Hash(ds, 1) + 13 * Len(sh)) % EmitMod = 0
-Pred(show) == LET o == Code(show) IN
+Pred(show) == LET o == Current(show) IN
    [crashed |-> o.crashed, exists |-> o.doc.exists, tests |-> o.doc.tests, failures |-> o.doc.failures, errors |-> o.doc.errors,
     skipped |-> o.doc.skipped, cases |-> o.doc.cases, clauses |-> {v[1] : v \in ClausesOf(show, o)}]
 Emit == (ph = "case" /\ EmitThis) =>
